@@ -126,20 +126,16 @@ fn gen(rng: &mut Rng, tier: &str) -> Vec<(String, Value)> {
     }
     // (b) key-reuse cycles
     for (name, g) in cycle_shapes() {
-        for d in [1u64, 2, 3, 5] {
-            for t in [1u64, 4] { cases.push((format!("cycle.{}", name), g.json(d, t))); }
-        }
+        for (d, t) in [(1u64, 1u64), (2, 4), (2, 1), (3, 4), (3, 1), (5, 4)] { cases.push((format!("cycle.{}", name), g.json(d, t))); }
     }
     // the default limit once
     cases.push(("cycle.two_cycle.limit32".into(), cycle_shapes()[2].1.json(32, 1)));
     // (c) shared sub-trees
     for (name, g) in shared_shapes() {
-        for d in [1u64, 2, 3, 5] {
-            for t in [1u64, 4] { cases.push((format!("shared.{}", name), g.json(d, t))); }
-        }
+        for (d, t) in [(1u64, 4u64), (2, 1), (2, 4), (3, 1), (3, 4), (5, 1)] { cases.push((format!("shared.{}", name), g.json(d, t))); }
     }
     // (d) random graphs (cycles, reuse, wrong keys, broken points, bad certificates)
-    let n = if tier == "thorough" { 1500 } else { 110 };
+    let n = if tier == "thorough" { 1500 } else { 90 };
     for _ in 0..n {
         let mut r = rng.fork();
         let (g, d, t) = random_graph(&mut r);
@@ -272,7 +268,7 @@ struct Worker { child: Child, stdin: ChildStdin, rx: Receiver<String> }
 
 fn spawn_worker() -> Worker {
     let mut child = Command::new(std::env::current_exe().unwrap())
-        .env("C07_WORKER", "1").env_remove("RPKIGEN_ACT_AS_RSYNC")
+        .env("C07_WORKER", "1").env_remove("RPKIGEN_ACT_AS_RSYNC").env("TMPDIR", scratch_dir())
         .stdin(Stdio::piped()).stdout(Stdio::piped()).stderr(Stdio::inherit())
         .spawn().expect("spawn worker");
     let stdin = child.stdin.take().unwrap();
@@ -284,6 +280,13 @@ fn spawn_worker() -> Worker {
         }
     });
     Worker { child, stdin, rx }
+}
+
+/// Worlds live below one scratch directory that the parent removes at the end (a killed worker cannot clean up).
+fn scratch_dir() -> std::path::PathBuf {
+    let d = std::env::temp_dir().join(format!("c07-{}", std::process::id()));
+    let _ = std::fs::create_dir_all(&d);
+    d
 }
 
 static POOL: Mutex<Vec<Worker>> = Mutex::new(Vec::new());
@@ -358,4 +361,5 @@ fn main() {
     // close the workers' stdin so that they exit
     let ws: Vec<Worker> = std::mem::take(&mut *POOL.lock().unwrap());
     for mut w in ws { drop(w.stdin); let _ = w.child.wait(); }
+    let _ = std::fs::remove_dir_all(scratch_dir());
 }
